@@ -10,7 +10,7 @@ FLOAT_KINDS = {'split', 'decompose'}      # float-mode companion (core.float_com
 FLOAT_TOL = 1e-8
 STATS = G.STATS
 PARTIAL = [
-    "proved end to end through splitDir / decomposeDir / decomposeUV (spans found by find_span_linear, closed end parameters included): split_curve, split_surface_u / split_surface_v (both pieces = original under the affine domain maps; other direction under the normalisation map of its knot vector), decompose_curve and decompose_surface 'u' / 'v' / 'uv' (exactly one Bezier piece per non-empty knot interval / pair of intervals, in order, each coinciding on its interval / rectangle). Hypotheses: degree >= 1, inner knots repeated at most p times, find_multiplicity's tolerance separates the parameter from the other knots; the SPLIT theorems (curve, surface u, surface v) hold for clamped AND unclamped knot vectors in the split direction (split_unclamped_*: sorted knots, domain [U_p, U_n] with a non-empty last span; each piece evaluated at the affine image of t in its own domain, which is [(U_p-U_0)/(u-U_0), 1] resp. [0, (U_n-u)/(U_{n+p}-u)] because the constructor normalises the piece's whole knot range; rejection at both domain ends U_p, U_n); the DECOMPOSITION theorems assume a clamped knot vector in the decomposed direction (any two knots separated, domain length <= 1; surfaces: the other direction's knot vector normalised). Not proved: decomposition of unclamped inputs (there the first and last piece returned by the code are single-span segments with p+1 control points over an unclamped knot vector, not Bezier segments; count and coincidence are checked by the exact oracle only on clamped inputs), degree 0, inner knots of multiplicity > p, un-normalised other-direction knot vector in decompose_surface, volumes; checked by the exact oracle",
+    "proved end to end through splitDir / decomposeDir / decomposeUV (spans found by find_span_linear, closed end parameters included): split_curve, split_surface_u / split_surface_v (both pieces = original under the affine domain maps; other direction under the normalisation map of its knot vector), decompose_curve and decompose_surface 'u' / 'v' / 'uv' (exactly one piece per non-empty knot interval / pair of intervals, in order, each coinciding on its interval / rectangle). Hypotheses: degree >= 1, inner knots repeated at most p times, find_multiplicity's tolerance separates the parameter from the other knots; the SPLIT theorems (curve, surface u, surface v) hold for clamped AND unclamped knot vectors in the split direction (split_unclamped_*: sorted knots, domain [U_p, U_n] with a non-empty last span; each piece evaluated at the affine image of t in its own domain, which is [(U_p-U_0)/(u-U_0), 1] resp. [0, (U_n-u)/(U_{n+p}-u)] because the constructor normalises the piece's whole knot range; rejection at both domain ends U_p, U_n); the DECOMPOSITION theorems for curves and for surfaces in 'u' / 'v' / 'uv' hold for clamped AND unclamped knot vectors in the decomposed direction(s) (decompose_unclamped_curve_pieces / _count, decompose_unclamped_surface_u_pieces / _v_pieces / _uv_pieces; hypothesis DecompWFU: U_p < U_{p+1} (the non-raising guard), non-empty last span, inner knots U_{p+1}..U_{n-1} repeated at most p times, knot range <= 1, any two knots separated by the tolerance; surfaces: the other direction's knot vector normalised, 'uv': both normalised): one single-span segment with p+1 control points per non-empty interval, in order, coinciding under the affine map of its own domain [V_p, V_{p+1}]; piece i is a Bezier segment (clamped at both ends, knot vector 0^{p+1} 1^{p+1}) whenever (i >= 1 or the input is clamped at its start) and (i is not the last piece or the input is clamped at its end), i.e. every inner piece; the first piece of an unclamped input starts at knot 0 with domain start (U_p-U_0)/(U_{p+1}-U_0) and ends with p+1 ones, the last one starts with p+1 zeros, has the domain end (U_n-b)/(U_{n+p}-b) (b the last interior break point) and ends at knot 1. The exceptions of the code are modelled by splitDirE / decomposeDirE / decomposeUVE (what the driver runs; proved equal to the plain model wherever they answer): 'Cannot split from the domain edge' when the first knot of U[p+1:-(p+1)] lies on the domain start (U_{p+1} = U_p: unclamped, or clamped with p+2 equal first knots) or on the domain end, ValueError when a split parameter / decomposition knot is repeated more than p times. Not proved: degree 0, inner knots of multiplicity > p (outside the quantifier: the implementation raises, the driver answers ERR), un-normalised other-direction knot vector in decompose_surface, volumes; checked by the exact oracle",
 ]
 
 
@@ -120,7 +120,125 @@ def gen(rng, tier):
         G.count('decompose_dir', dirs)
         line = "decomp %s %s %s" % (KO.KIND[d['kind']], S.args(d), dirs)
         out.append(Case('decompose', line, dict(shape=d, dirs=dirs)))
+    # decomp-unclamped: knot vectors that are NOT clamped in the decomposed direction(s) (first / last piece are
+    # single-span segments over an unclamped knot vector, inner pieces are Bezier), inner knots of multiplicity
+    # 1..p, and the patterns on which the implementation raises (first interior knot on the domain start:
+    # U_{p+1} = U_p, unclamped or clamped with p+2 equal first knots; an interior knot on the domain end:
+    # U_{n-1} = U_n) - the driver must answer ERR exactly there
+    for _ in range(45 if tier == 'quick' else 600):
+        out.append(_decomp_unclamped_case(rng))
+    # split-overmult: split parameter on a knot repeated more than p times (outside the property's quantifier;
+    # the implementation raises ValueError, the driver must answer ERR)
+    for _ in range(8 if tier == 'quick' else 80):
+        p = rng.randint(1, 3)
+        kv, n = _unclamped_kv(rng, p, rng.choice(['clamped', 'plain', 'half']), over=True)
+        d = _curve_on(rng, p, kv, n)
+        xs = [x for x in set(kv[p + 1:n]) if kv.count(x) > p]
+        u = rng.choice(sorted(xs)) if xs and rng.random() < .8 else kv[p] + (kv[n] - kv[p]) * F(rng.randint(1, 99), 100)
+        G.count('split_param', 'over-multiplicity' if kv.count(u) > p else 'in-span')
+        line = "split %s %s %d %s" % (KO.KIND[d['kind']], S.args(d), 0, fr(u))
+        out.append(Case('split', line, dict(shape=d, dir=0, u=u), tags=('overmult',)))
     return out
+
+
+PATTERNS = ['plain', 'plain', 'plain', 'half', 'half', 'raise-start', 'raise-start-clamped', 'raise-end', 'clamped']
+
+
+def _unclamped_kv(rng, p, pattern, over=False):
+    """sorted knot vector of degree p with domain [0,1] = [U_p, U_n] before the optional affine map; the p knots
+    outside each domain end are arbitrary (repetitions allowed) unless the pattern clamps that end; inner knots
+    of multiplicity 1..p (`over`: one inner knot p+1 times).  Returns (kv, n)."""
+    den = rng.choice([8, 12, 7, 10, 16, 9])
+    ints = sorted(rng.sample([F(i, den) for i in range(1, den)], rng.randint(1 if over else 0, 3)))
+    inner = []
+    for x in ints:
+        inner += [x] * rng.randint(1, p)
+    if over:
+        x = rng.choice(ints)
+        inner = sorted([y for y in inner if y != x] + [x] * (p + 1))
+
+    def outside():
+        acc, res = F(0), []
+        for _ in range(p):
+            acc += F(rng.choice([0, 1, 1, 2, 3]), den)
+            res.append(acc)
+        return res
+    lo = [-x for x in reversed(outside())]
+    hi = [1 + x for x in outside()]
+    if pattern == 'clamped' or pattern == 'raise-start-clamped':
+        lo, hi = [F(0)] * p, [F(1)] * p
+    elif pattern == 'half':
+        if rng.random() < .5:
+            lo = [F(0)] * p
+        else:
+            hi = [F(1)] * p
+    if pattern.startswith('raise-start'):
+        inner = [F(0)] + inner              # U_{p+1} = U_p
+    if pattern == 'raise-end':
+        inner = inner + [F(1)]              # U_{n-1} = U_n (empty last span)
+    kv = lo + [F(0)] + inner + [F(1)] + hi
+    r = rng.random()
+    if r < .4:                              # what the constructor's normalisation makes of it
+        a, b = kv[0], kv[-1]
+        kv = [(x - a) / (b - a) for x in kv]
+    elif r < .6:
+        a, b = F(rng.randint(-3, 3)), F(rng.choice([2, 3, 5, F(1, 2), F(7, 3)]))
+        kv = [a + b * x for x in kv]
+    return kv, len(kv) - p - 1
+
+
+def _curve_on(rng, p, kv, n):
+    rat = rng.random() < .5
+    dim = rng.choice([2, 3, 3])
+    P = G.points(rng, n, dim)
+    if rat:
+        P = G.homogeneous(P, G.weights(rng, n))
+    return dict(kind='curve', rat=rat, p=p, kv=kv, n=n, P=P, dim=dim)
+
+
+def _decomp_unclamped_case(rng):
+    pat = rng.choice(PATTERNS)
+    if rng.random() < .5:
+        p = rng.randint(1, 4)
+        kv, n = _unclamped_kv(rng, p, pat)
+        d, dirs = _curve_on(rng, p, kv, n), 'u'
+        G.count('decomp_unclamped', 'curve ' + pat)
+    else:
+        dirs = rng.choice(['u', 'v', 'uv'])
+        while True:
+            pu, pv = rng.randint(1, 3), rng.randint(1, 3)
+            # the pattern goes to the decomposed direction ('uv': to one of them, the other is unclamped or clamped)
+            which = rng.randrange(2) if dirs == 'uv' else 'uv'.index(dirs)
+            other = rng.choice(['plain', 'half', 'clamped']) if dirs == 'uv' else rng.choice(['plain', 'clamped', 'raise-start', 'raise-end'])
+            pats = [other, other]
+            pats[which] = pat
+            kvu, su = _unclamped_kv(rng, pu, pats[0])
+            kvv, sv = _unclamped_kv(rng, pv, pats[1])
+            if su != sv and pu != pv:     # a u/v mix-up must show
+                break
+        rat = rng.random() < .5
+        P = G.points(rng, su * sv, 3)
+        if rat:
+            P = G.homogeneous(P, G.weights(rng, su * sv))
+        d = dict(kind='surface', rat=rat, pu=pu, pv=pv, kvu=kvu, kvv=kvv, su=su, sv=sv, P=P, dim=3)
+        G.count('decomp_unclamped', 'surface-%s %s' % (dirs, pat))
+    line = "decomp %s %s %s" % (KO.KIND[d['kind']], S.args(d), dirs)
+    return Case('decompose', line, dict(shape=d, dirs=dirs), tags=('decomp-unclamped', pat))
+
+
+TOL_MULT = F(1, 10 ** 7)      # helpers.find_multiplicity: 10e-8
+
+
+def _mult(u, kv):
+    return sum(1 for x in kv if abs(u - x) <= TOL_MULT)
+
+
+def _decompose_may_raise(p, kv, n):
+    """the input patterns of ONE decomposed direction on which decompose_* raises (outside the property: a knot of
+    the list U[p+1:-(p+1)] the loop splits at lies on a domain end, or is repeated more than p times)"""
+    if n <= p + 1:
+        return False
+    return kv[p + 1] == kv[p] or kv[n - 1] == kv[n] or any(_mult(x, kv) > p for x in kv[p + 1:n])
 
 
 def _split(o, d, i, u):
@@ -148,7 +266,8 @@ def impl(c):
 
 
 def _piece_check(orig, piece, ranges):
-    """piece (normalised domain [0,1] per direction) against orig on `ranges` = per direction (lo, hi)"""
+    """piece (on its OWN domain [kv[p], kv[n]] per direction - a sub-interval of [0,1] when the piece's end is
+    unclamped, because the constructor normalises the whole knot range) against orig on `ranges` = per direction (lo, hi)"""
     import itertools
     grids = []
     pdom = []
@@ -177,10 +296,11 @@ def oracle(c):
     if c.kind == 'split':
         i, u = c.data['dir'], c.data['u']
         at_end = u in dom[i]
+        over = _mult(u, ds[i][1]) > ds[i][0]      # more than p copies of the parameter: outside the quantifier
         try:
             ps = _split(o, d, i, u)
         except Exception as e:
-            if at_end:
+            if at_end or over:
                 return None if S.from_obj(o) == before else "rejected split modified the input"
             return "split at interior parameter raised %s: %s" % (type(e).__name__, e)
         if at_end:
@@ -226,9 +346,12 @@ def oracle(c):
         return None
     # decomposition
     dirs = c.data['dirs']
+    act = [(d['kind'] == 'curve') or ('uvw'[j] in dirs) for j in range(len(ds))]
     try:
         ps = _decompose(o, d, dirs)
     except Exception as e:
+        if any(a and _decompose_may_raise(*ds[j]) for j, a in enumerate(act)):
+            return None if S.from_obj(o) == before else "rejected decomposition modified the input"
         return "decompose raised %s: %s" % (type(e).__name__, e)
     if S.from_obj(o) != before:
         return "decompose modified its input"
@@ -237,18 +360,27 @@ def oracle(c):
     spans = []
     for j, (p, kv, n) in enumerate(ds):
         ks = sorted(set(kv[p:n + 1]))
-        active = (d['kind'] == 'curve') or ('uvw'[j] in dirs)
-        spans.append(list(zip(ks, ks[1:])) if active else [dom[j]])
+        spans.append(list(zip(ks, ks[1:])) if act[j] else [dom[j]])
     import itertools
     want = list(itertools.product(*spans))    # u-major order
+    index = list(itertools.product(*[range(len(sp)) for sp in spans]))
     if len(ps) != len(want):
         return "decompose returned %d pieces, there are %d non-empty knot intervals" % (len(ps), len(want))
-    for pc, rng_ in zip(ps, want):
+    for pc, rng_, idx in zip(ps, want, index):
         pd = S.from_obj(pc)
         for j, (p, kv, n) in enumerate(S.dirs(pd)):
-            active = (d['kind'] == 'curve') or ('uvw'[j] in dirs)
-            if active and n != p + 1:
-                return "a piece is not a Bezier patch in direction %d" % j
+            if not act[j]:
+                continue
+            if n != p + 1:
+                return "a piece is not a single-span segment (p+1 control points) in direction %d" % j
+            # Bezier = clamped at BOTH ends.  Claimed for every end of a piece that is an interior break point, and
+            # for the outer end of the first / last piece only when the input is clamped there (an unclamped input's
+            # first / last piece is a single-span segment over a knot vector that is unclamped at its outer end)
+            p0, kv0, n0 = ds[j]
+            if (idx[j] > 0 or kv0[0] == kv0[p0]) and kv[0] != kv[p]:
+                return "a piece is not clamped at its start in direction %d (not a Bezier piece)" % j
+            if (idx[j] + 1 < len(spans[j]) or kv0[n0] == kv0[n0 + p0]) and kv[n] != kv[n + p]:
+                return "a piece is not clamped at its end in direction %d (not a Bezier piece)" % j
         why = _piece_check(before, pd, list(rng_))
         if why:
             return "piece over %s: %s" % ([tuple(map(fr, r)) for r in rng_], why)
